@@ -32,6 +32,11 @@ def run(chk):
         for n in range(0, hi + 1):
             _mk(op, n, SH if n <= 6 else ("E", "SE", "S"))
             names.append(f"{op}/{n}")
+    # operands that are let-bound variables (their Python names look like compiler temporaries)
+    for op in ("and", "or"):
+        for n in range(1, 4):
+            rules.Case(f"{op}/{n}/let-bound-operands", lambda *o, op=op: E(S(op), *o), n, ("E", "SE", "L"), kind="arity_bounded")
+            names.append(f"{op}/{n}/let-bound-operands")
     # nested and/or (the property's "including nested and/or"): inner forms are real forms, not tokens
     B = ("E", "SE", "S")
     rules.Case("nest/and-or", lambda a, b, c, d: E(S("and"), a, E(S("or"), b, c), d), 4, B, kind="arity_bounded")
